@@ -19,6 +19,7 @@ mod keys;
 mod ossl;
 mod pathdrv;
 mod pemx;
+mod secretdrv;
 mod strdrv;
 mod project;
 mod puritydrv;
@@ -61,6 +62,7 @@ fn main() {
 		"key-xfer" => featdrv::key_xfer(&args[2], &args[3], &args[4]),
 		"panic-matrix" => panicdrv::run_matrix(&args[2], &args[3]),
 		"panic-parsers" => panicdrv::run_parsers(&args[2], &args[3]),
+		"secrets" => secretdrv::run(&args[2], &args[3]),
 		"dn-cases" => dndrv::run_cases(&args[2], &args[3]),
 		"dn-random" => dndrv::run_random(&args[2], args[3].parse().unwrap(), args[4].parse().unwrap()),
 		other => {
